@@ -60,10 +60,11 @@ def main(argv):
         workers = int(os.environ.get("VERIF_WORKERS", "4"))
         chunk = max(1, n // (workers * 3))
         tasks = [(seeds.verif_seed(), tier, list(range(i, min(n, i + chunk)))) for i in range(0, n, chunk)]
+        os.environ["SIMX_KEEP_DIGEST_LIST"] = "1"
         with ProcessPoolExecutor(max_workers=workers, mp_context=multiprocessing.get_context("fork")) as ex:
-            recs = [r for out in ex.map(driver._worker, tasks) for r in out]
-        recs.sort(key=lambda r: r["idx"])
-        print("DIGESTS " + json.dumps([[r["idx"], r.get("digest"), r.get("ok"), r.get("aborted"), r.get("ops")] for r in recs]))
+            recs = [r for out in ex.map(driver._worker, tasks) for r in out["digest_list"]]
+        recs.sort(key=lambda r: r[0])
+        print("DIGESTS " + json.dumps(recs))
         return 0
     if len(argv) < 1 or argv[0] not in reg:
         print("usage: main.py <%s> <quick|thorough>" % "|".join(sorted(reg)))
